@@ -250,7 +250,7 @@ pub fn render_ty(t: &Ty, out: &mut String) {
             "dyn" => {
                 // a[0] must be App(traitname, [])
                 if let Ty::App(tn, _) = &a[0] {
-                    let _ = write!(out, "dyn {}", tn);
+                    let _ = write!(out, "(dyn {} + 'static)", tn);
                 }
             }
             _ => {
